@@ -17,6 +17,7 @@ type retPoint struct {
 	reach string
 	st    *State
 	vals  []Term
+	pos   string
 }
 
 type loopInfo struct {
@@ -1045,6 +1046,14 @@ func (g *Gen) VerifyFunction(fn *ssa.Function) (err error) {
 		g.sc.Comment("requires %s", rq.Src)
 		g.sc.Assume(env.trBool(rq.E))
 	}
+	// a crash before the first step leaves the entry state: it must satisfy the crash invariant too
+	for i, cl := range fc.Crash {
+		label := cl.Label
+		if label == "" {
+			label = fmt.Sprint(i)
+		}
+		g.oblige("crash", funcKey(fn)+"/crash@entry/"+label, "true", env.trBool(cl.E), cl.Src, false)
+	}
 	// vacuity guard: the precondition must be satisfiable
 	g.obls = append(g.obls, &Obligation{Name: funcKey(fn) + "/cover/requires", Kind: "cover", Func: g.fnName, Prefix: g.sc.Len(), Reach: "true", Goal: "true", Cover: true})
 	fr.execBody(st, "true")
@@ -1071,7 +1080,7 @@ func (g *Gen) VerifyFunction(fn *ssa.Function) (err error) {
 				f := env.trBool(conj)
 				// obligations are emitted with the full script as context
 				g.obls = append(g.obls, &Obligation{Name: fmt.Sprintf("%s/post/%s@ret%d", funcKey(fn), l, ri), Kind: "post", Func: g.fnName,
-					Prefix: g.sc.Len(), Reach: r.reach, Goal: f, Src: en.Src})
+					Prefix: g.sc.Len(), Reach: r.reach, Goal: f, Src: en.Src, Pos: r.pos})
 			}
 		}
 	}
